@@ -319,6 +319,10 @@ def icLoop (frags : List Frag) (e : Event) (ns : NsMap) :
             | none => (fid + 1, 0, fragLen, frag.attr)
         else (fid, p, fragLen, frag.attr)
 
+/-- `return attrib(kind, data, pos, namespaces, variables) or None` (fix ef611bc) -/
+def attrResult (a : NodeTest) (e : Event) (ns : NsMap) : Val :=
+  if (a.apply e ns).truthy then a.apply e ns else .none
+
 def pStep (frags? : Option (List Frag)) (ignoreContext : Bool) (ns : NsMap) (st : PState) (e : Event) :
     PState × Val :=
   match frags? with
@@ -382,7 +386,7 @@ def pStep (frags? : Option (List Frag)) (ignoreContext : Bool) (ns : NsMap) (st 
           else st
         if fid + 1 == fl && p == fragLen then
           match attrib with
-          | some a => (st', a.apply e ns)
+          | some a => (st', attrResult a e ns)
           | none => (st', .bool true)
         else (st', .none)
 
@@ -392,10 +396,12 @@ def simpleSupports (p : LocPath) : Bool :=
   match p with
   | [] => false      -- `path[0]` raises
   | s0 :: _ =>
-    s0.axis != .attribute && p.all fun s =>
+    s0.axis != .attribute && (p.all fun s =>
       s.preds.isEmpty && (match s.test with
         | .localName _ _ | .comment | .text => true
-        | _ => false)
+        | _ => false)) &&
+    -- `for step in path[:-1]: if step[0] is ATTRIBUTE: return False` (fix e131362)
+    p.dropLast.all fun s => s.axis != .attribute
 
 def singleSupports (p : LocPath) : Bool := p.length == 1
 
